@@ -7,6 +7,7 @@ import (
 	"errors"
 	"fmt"
 	"io"
+	"sort"
 	"sync"
 
 	"github.com/kubewharf/kubebrain/pkg/backend/coder"
@@ -182,7 +183,42 @@ func (s *Store) GetPartitions(ctx context.Context, start, end []byte) ([]storage
 	if s.Partitions != nil {
 		return s.Partitions(start, end), nil
 	}
-	return s.Inner.GetPartitions(ctx, start, end)
+	ps, err := s.Inner.GetPartitions(ctx, start, end)
+	if err != nil {
+		return ps, err
+	}
+	// the engine's own answer: the partitions must tile [start, end) -- every piece non-empty and forward, the pieces
+	// (in key order) contiguous, the first starting at start and the last ending at end. The answer is recorded; a
+	// malformed one is not handed to the scanner (the mock TiKV panics on the scans it leads to), the request fails.
+	if bytes.Compare(start, end) >= 0 {
+		return ps, nil // an empty interval was asked for: nothing to tile
+	}
+	why := ""
+	sorted := append([]storage.Partition(nil), ps...)
+	sort.Slice(sorted, func(i, j int) bool { return bytes.Compare(sorted[i].Start, sorted[j].Start) < 0 })
+	switch {
+	case len(sorted) == 0:
+		why = "no partition"
+	case !bytes.Equal(sorted[0].Start, start):
+		why = "first partition does not start at the start of the interval"
+	case !bytes.Equal(sorted[len(sorted)-1].End, end):
+		why = "last partition does not end at the end of the interval"
+	}
+	for i := range sorted {
+		if why == "" && bytes.Compare(sorted[i].Start, sorted[i].End) >= 0 {
+			why = "empty or reversed partition"
+		}
+		if why == "" && i > 0 && !bytes.Equal(sorted[i-1].End, sorted[i].Start) {
+			why = "gap or overlap between partitions"
+		}
+	}
+	if len(ps) > 1 || why != "" {
+		s.Rec.Log(Event{"e": "Parts", "p": s.proc(), "n": len(ps), "wellformed": why == "", "why": why})
+	}
+	if why != "" {
+		return nil, fmt.Errorf("malformed partition answer: %s", why)
+	}
+	return ps, nil
 }
 
 // Get implements storage.KvStorage.
